@@ -202,7 +202,7 @@ namespace verif
                 .u("al", alignment)
                 .u("mis", alignment ? reinterpret_cast<std::uintptr_t>(base) % alignment : 0)
                 .u("gap", gap)
-                .b("st", false);
+                .b("st", false).b("out", false);
             return base;
         }
 
@@ -259,7 +259,7 @@ namespace verif
             .u("al", 16)
             .u("mis", reinterpret_cast<std::uintptr_t>(base) % 16)
             .u("gap", 0)
-            .b("st", true);
+            .b("st", true).b("out", false);
         return id;
     }
 
@@ -269,14 +269,31 @@ namespace verif
         static int s = -1;
         return s;
     }
+    // size of the storage the next static source is built on (header key ssz) and the storage itself
+    inline std::size_t& static_size_request()
+    {
+        static std::size_t n = 16384;
+        return n;
+    }
+    struct AddrRange
+    {
+        const char* lo = nullptr;
+        const char* hi = nullptr;
+    };
+    inline AddrRange& pending_range()
+    {
+        static AddrRange r;
+        return r;
+    }
     template <class BlockAlloc>
     class logged_blocks : public BlockAlloc
     {
     public:
         template <typename... Args>
         explicit logged_blocks(std::size_t block_size, Args&&... args)
-        : BlockAlloc(block_size, static_cast<Args&&>(args)...), src_(pending_src())
+        : BlockAlloc(block_size, static_cast<Args&&>(args)...), src_(pending_src()), range_(pending_range())
         {
+            pending_range() = AddrRange();
         }
         logged_blocks(logged_blocks&&) noexcept            = default;
         logged_blocks& operator=(logged_blocks&&) noexcept = default;
@@ -302,7 +319,11 @@ namespace verif
                 .u("al", 16)
                 .u("mis", reinterpret_cast<std::uintptr_t>(b.memory) % 16)
                 .u("gap", 0)
-                .b("st", false);
+                .b("st", false)
+                // a block that does not lie inside the storage the source was given
+                .b("out", range_.lo
+                              && (static_cast<const char*>(b.memory) < range_.lo
+                                  || static_cast<const char*>(b.memory) + b.size > range_.hi));
             return b;
         }
 
@@ -336,7 +357,8 @@ namespace verif
 
     private:
         using Block_ = Block;
-        int src_;
+        int       src_;
+        AddrRange range_;
     };
 } // namespace verif
 #endif
